@@ -263,7 +263,7 @@ func rawWriters(c *Check, fmts []format) {
 			return true
 		})
 	}
-	c.add("O-C20.4", "Raw is written only by Sign and ParseEnvelope", "the wrapper's Raw is assigned only in the wrapper's Sign and set in the ParseEnvelope literals", len(bad) == 0 && nlit == 2 && nassign >= 2, "", bad...)
+	c.add("O-C20.4", "Raw is written only by Sign and ParseEnvelope", "the wrapper's Raw is assigned only in the wrapper's Sign and set in the ParseEnvelope literals", len(bad) == 0 && nlit >= 1 && nassign >= 1, "", bad...)
 	for _, f := range fmts {
 		pg := c.pgOf(f.pkg + ".ParseEnvelope")
 		if pg == nil {
